@@ -195,6 +195,7 @@ def main(argv=None):
             if len(samples) < 4 and k % 71 == 3:
                 samples.append({'version': v, 'level': lvl, 'ops': g.ops, 'codes': g.codes})
         all_cases[v] = cases
+    H.shrink_oracle_failures(run, oracle_on_history, ('family',))
     run.log('implementation side: %d steps, %d raising calls checked, %d changed their target'
             % (stats['steps'], stats['raising_calls_checked'], len(run.failures)))
     evaluated = steps = 0
@@ -202,9 +203,7 @@ def main(argv=None):
         ev, st, bad, _, _ = H.run_model(run, v, cases, 'c12', per_file=max(8, len(cases) // 16))
         evaluated += ev
         steps += st
-        for idx, step in bad[:12]:
-            ops = cases[idx][0]
-            run.disagree('heap', version=v, step=step, ops=ops[:step + 1], first_difference=H.explain(v, ops, step))
+        H.report_disagreements(run, v, cases, bad)
     run.log('model side: %d histories / %d steps replayed, %d disagreements' % (evaluated, steps, len(run.disagreements)))
     run.finish({
         'evaluations': stats['raising_calls_checked'],
@@ -228,30 +227,34 @@ def main(argv=None):
     ])
 
 
+def oracle_on_history(run, v, ops):
+    state = {}
+
+    def hook(impl, kk, op, phase, data):
+        if phase == 'before':
+            els = with_ancestors(targets_of(impl, op))
+            state['els'] = els
+            state['before'] = [shape(x, impl.ec) for x in els]
+            state['family'] = classify(impl, op, None)
+            return
+        if data[0] in (0, 50):
+            return
+        after = [shape(x, impl.ec) for x in state['els']]
+        if after != state['before']:
+            j = [a != b for a, b in zip(after, state['before'])].index(True)
+            run.fail('not-atomic', 'a rejected call changed its target: %s -> %s'
+                     % (state['before'][j][0][:120], after[j][0][:120]), family=state['family'], version=v,
+                     outcome=data[0], operation=op[0], ops=ops[:kk + 1], step=kk)
+    H.run_history(v, ops, hook)
+
+
 def replay(run):
     r = json.load(open(run.replay))
     inp = r.get('input', {})
     ops = inp.get('ops')
     v = inp.get('version', '2.5')
     if ops:
-        state = {}
-
-        def hook(impl, kk, op, phase, data):
-            if phase == 'before':
-                els = with_ancestors(targets_of(impl, op))
-                state['els'] = els
-                state['before'] = [shape(x, impl.ec) for x in els]
-                state['family'] = classify(impl, op, None)
-                return
-            if data[0] in (0, 50):
-                return
-            after = [shape(x, impl.ec) for x in state['els']]
-            if after != state['before']:
-                j = [a != b for a, b in zip(after, state['before'])].index(True)
-                run.fail('not-atomic', 'a rejected call changed its target: %s -> %s'
-                         % (state['before'][j][0][:120], after[j][0][:120]), family=state['family'], version=v,
-                         outcome=data[0], operation=op[0], ops=ops[:kk + 1], step=kk)
-        H.run_history(v, ops, hook)
+        oracle_on_history(run, v, ops)
     for f in run.failures:
         print('replayed failure:', f['kind'], f['data'].get('family'), f['what'])
     run.finish({'evaluations': len(ops or []), 'distinct_nontrivial': 1, 'rule': 'replay of one stored history',
@@ -259,4 +262,5 @@ def replay(run):
 
 
 if __name__ == '__main__':
-    main()
+    from common import run_guarded
+    run_guarded('C12', main)
